@@ -3,8 +3,8 @@ CONSTANT Depth = 3
 CONSTANT MaxD = 3
 CONSTANT MaxPause = 2
 CONSTANT Plain <- PlainFull
-CONSTANT CbsOk <- CbsErrFull
-CONSTANT CbsErr <- CbsErrFull
+CONSTANT CbsOk <- CbsOkQuick
+CONSTANT CbsErr <- CbsErrQuick
 CONSTRAINT Bound
 VIEW View
 INVARIANT AtMostOnce
